@@ -5,6 +5,7 @@ Engine C: bounded-exhaustive value grammar (depth <= 3, width <= 2), every
 value also encoded twice in a row followed by a trailer.
 """
 import io
+import gzip
 import math
 import struct
 import itertools
@@ -338,12 +339,290 @@ def check_reuse():
         for step in ("first encoding", "after the change", "after the change, encoded a third time"):
             n += 1
             cls, bad = check_value(v, "re-used object: %s (%s)" % (label, step))
+            if not bad and isinstance(v, Serializable):
+                bad = check_api(v, "re-used object: %s (%s)" % (label, step))
             if bad:
                 out.append(bad)
                 break
             if step == "first encoding":
                 mutate()
     return n, out
+
+
+def check_api(v, label):
+    """a Serializable value of the grammar through the PUBLIC entry points: dumpb -> loadb (bytes and stream form, twice in a
+    row plus trailer) and dumpz -> loadz.  returns a violation tuple or None"""
+    want = canon(v)
+    try:
+        p = v.dumpb()
+    except Exception as e:
+        return ("encode-raises", "in-domain value refused by dumpb: %s" % label, "%.80r.dumpb() raised %r" % (v, e))
+    try:
+        got = Serializable.loadb(p)
+        stream = io.BytesIO(p + v.dumpb() + TRAILER)
+        g1 = Serializable.loadb(stream)
+        p1 = stream.tell()
+        g2 = Serializable.loadb(stream)
+        rest = stream.read()
+    except Exception as e:
+        return ("decode-raises", "loadb(dumpb(v)) raises: %s" % describe(v, label), "v=%.80r: %r" % (v, e))
+    if canon(got) != want or canon(g1) != want or canon(g2) != want:
+        return ("round-trip", "loadb(dumpb(v)) != v: %s" % describe(v, label), "v=%.80r got %.80r" % (v, got))
+    if p1 != len(p) or rest != TRAILER:
+        return ("self-delimiting", "loadb consumed other than the bytes dumpb produced: %s" % label,
+                "v=%.80r len(dumpb)=%d consumed=%d rest=%r" % (v, len(p), p1, rest))
+    try:
+        z = v.dumpz()
+        gz = Serializable.loadz(z)
+    except Exception as e:
+        return ("decode-raises", "loadz(dumpz(v)) raises: %s" % describe(v, label), "v=%.80r: %r" % (v, e))
+    if canon(gz) != want:
+        return ("round-trip", "loadz(dumpz(v)) != v: %s" % describe(v, label), "v=%.80r got %.80r" % (v, gz))
+    return None
+
+
+# ---- histories of calls in one process -------------------------------------------------------------------------------------
+# The property is stated per value, so it holds for a value whatever the process did before: other encodes, encodes that were
+# (correctly) REFUSED part-way, decodes, decodes of damaged bytes that raised.  Alphabet of operations, explored exhaustively
+# up to HIST_DEPTH operations in a row.  Every operation is judged by the property alone (never by comparison with an
+# earlier run): a valid encode must decode back to the value and be consumed exactly, an out-of-domain value must be refused
+# (or decode back exactly), a valid decode must yield the value and consume exactly; at the end of a history the encodings it
+# produced, concatenated, must decode one after another.  Damaged decodes are perturbations only (C14 judges them).
+
+def hist_values():
+    good = [
+        ("A", C13Three(a=C13Color.BIG, b="héllo", c=[1, {"k": -70000}, None])),
+        ("B", C13Defaults()),
+        ("E", C13Empty()),
+    ]
+    bad = [  # (name, nesting depth at which the encoder meets the offending part, value)
+        ("int beyond 64 bits in a field", 1, C13One(x=2 ** 70)),
+        ("unsupported type in a list field, after two fields and two items", 2, C13Three(a="ok", b=[1, 2, object()], c=None)),
+        ("int beyond 64 bits three containers down", 3, C13One(x={"k": C13One(x=[b"z", 2 ** 64])})),
+        ("over-long list as last field", 1, C13Three(a=1, b=b"\xff" * 40, c=[0] * (L_ARRAY + 1))),
+        ("float beyond float32 in a nested object", 2, C13Three(a=C13Three(a=None, b=1e39, c=None), b=None, c=None)),
+        ("over-long string as first field", 1, C13Three(a="x" * (L_BYTES + 1), b=None, c=None)),
+    ]
+    return good, bad
+
+
+def _enc_dumpb(v):
+    return ("b", v.dumpb())
+
+
+def _enc_dumpz(v):
+    return ("z", v.dumpz())
+
+
+def _enc_value(v):
+    s = io.BytesIO()
+    serialize_value(s, v)
+    return ("b", s.getvalue())
+
+
+def _enc_list(v):
+    """the value as an item of a plain list (a non-Serializable top level value)"""
+    s = io.BytesIO()
+    serialize_value(s, [v, 7])
+    return ("l", s.getvalue())
+
+
+ENCODERS = [("dumpb", _enc_dumpb), ("dumpz", _enc_dumpz), ("serialize_value", _enc_value), ("serialize_value in a list", _enc_list)]
+
+
+def _decode_payload(form, payload):
+    """-> (value, consumed == all)"""
+    if form == "z":
+        raw = io.BytesIO(gzip.decompress(payload))     # the encoded bytes are what the gzip member holds
+        deserialize_value(raw)
+        return Serializable.loadz(payload), raw.read() == b""
+    stream = io.BytesIO(payload)
+    got = Serializable.loadb(stream)
+    exact = stream.tell() == len(payload)
+    if form == "l":
+        if not (isinstance(got, list) and len(got) == 2 and canon(got[1]) == canon(7)):
+            return got, False
+        got = got[0]
+    return got, exact
+
+
+def hist_ops():
+    """[(name, kind, fn)] where fn() -> None (fine) or (oracle, what) ; built once per process"""
+    good, bad = hist_values()
+    ops = []
+    produced = []   # encodings made by the valid encodes of the running history (bytes form only)
+
+    def valid_encode(vname, v, ename, enc):
+        want = canon(v)
+
+        def fn():
+            try:
+                form, payload = enc(v)
+            except Exception as e:
+                return ("encode-raises", "a valid message is refused: %r" % (e,))
+            try:
+                got, exact = _decode_payload(form, payload)
+            except Exception as e:
+                return ("decode-raises", "the %d bytes it returned cannot be decoded: %r" % (len(payload), e))
+            if canon(got) != want:
+                return ("round-trip", "the %d bytes it returned decode to %.90r instead of %.90r" % (len(payload), got, v))
+            if not exact:
+                return ("self-delimiting", "the %d bytes it returned are not consumed exactly by the decoder" % len(payload))
+            if form == "b":
+                produced.append((payload, want))
+            return None
+        ops.append(("%s of valid message %s" % (ename, vname), "%s of a valid message" % ename, fn))
+
+    def refused_encode(bname, depth, v, ename, enc):
+        def fn():
+            try:
+                form, payload = enc(v)
+            except Exception:
+                return None
+            try:
+                got, exact = _decode_payload(form, payload)
+                same = exact and canon(got) == canon(v)
+            except Exception:
+                same = False
+            return None if same else ("out-of-domain", "the out-of-domain value was accepted and the bytes do not decode back to it")
+        ops.append(("%s of a message with %s" % (ename, bname), "%s refused part-way (nesting depth %d)" % (ename, depth), fn))
+
+    for vname, v in good:
+        for ename, enc in ENCODERS:
+            if vname == "E" and ename != "dumpb":
+                continue
+            valid_encode(vname, v, ename, enc)
+    for bname, depth, v in bad:
+        for ename, enc in ENCODERS[:3]:
+            if v is bad[-1][2] and ename != "dumpb":
+                continue    # a megabyte string: once is enough
+            refused_encode(bname, depth, v, ename, enc)
+
+    # decodes: the inputs are encoded here, once, when the table is built (before this process ran any refused operation)
+    a = good[0][1]
+    wire = _enc_value(a)[1]
+    wire_b = _enc_value(good[1][1])[1]
+    wire_z = a.dumpz()
+
+    def valid_decode(name, kind, call, data, v):
+        want = canon(v)
+
+        def fn():
+            try:
+                got, consumed = call(data)
+            except Exception as e:
+                return ("decode-raises", "valid bytes cannot be decoded: %r" % (e,))
+            if canon(got) != want:
+                return ("round-trip", "valid bytes decode to %.90r instead of %.90r" % (got, v))
+            if consumed is not None and consumed != len(data):
+                return ("self-delimiting", "decoder consumed %d of %d bytes" % (consumed, len(data)))
+            return None
+        ops.append((name, kind, fn))
+
+    def via_stream(data):
+        s = io.BytesIO(data + TRAILER)
+        got = Serializable.loadb(s)
+        n = s.tell()
+        return got, (n if s.read() == TRAILER else -1)
+
+    valid_decode("loadb(bytes) of message A", "loadb of valid bytes", lambda d: (Serializable.loadb(d), None), wire, a)
+    valid_decode("loadb(stream) of message B followed by a trailer", "loadb of valid bytes", via_stream, wire_b, good[1][1])
+    valid_decode("loadz(bytes) of message A", "loadz of valid bytes", lambda d: (Serializable.loadz(d), None), wire_z, a)
+
+    def damaged(name, kind, call):
+        def fn():
+            try:
+                call()
+            except Exception:
+                pass
+            return None
+        ops.append((name, kind, fn))
+
+    damaged("loadb of message A cut in the middle", "loadb of damaged bytes (raises)", lambda: Serializable.loadb(wire[:len(wire) // 2]))
+    damaged("loadb of message A cut after the field count", "loadb of damaged bytes (raises)", lambda: Serializable.loadb(wire[:5]))
+    damaged("loadb of an unknown type id", "loadb of damaged bytes (raises)", lambda: Serializable.loadb(b"\xff\xf0" + wire[2:]))
+    damaged("loadz of a gzip stream cut in the middle", "loadz of damaged bytes (raises)",
+            lambda: Serializable.loadz(wire_z[:-12]))
+    damaged("loadz of bytes that are not gzip", "loadz of damaged bytes (raises)", lambda: Serializable.loadz(wire))
+    return ops, produced
+
+
+HIST_DEPTH = {"quick": 3, "thorough": 3}
+_HIST = None
+
+
+def _hist():
+    global _HIST
+    if _HIST is None:
+        _HIST = hist_ops()
+    return _HIST
+
+
+def hist_run(indices, log, counts=None):
+    """run the operations ``indices`` one after another; log = names of the operations this process ran before (latest last,
+    extended in place).  returns None or (oracle, sig, witness, message) for the first operation that breaks the property"""
+    ops, produced = _hist()
+    del produced[:]
+    for pos, i in enumerate(indices):
+        name, kind, fn = ops[i]
+        before = list(log[-HIST_BACK:])
+        bad = fn()
+        log.append(i)
+        if counts is not None:
+            counts.inc("history-op:" + kind)
+        if bad:
+            prev = ops[before[-1]][1] if before else "nothing"
+            return (bad[0], "%s directly after %s: %s" % (kind, prev, _hist_what(bad[0])),
+                    {"family": "history", "ops": before + [i], "names": [ops[j][0] for j in before] + [name]},
+                    "%s: %s; operations run in this process just before it (latest last): %s" % (
+                        name, bad[1], " ; ".join(ops[j][0] for j in before) or "none"))
+    # the encodings this history produced, one after the other in one stream
+    if produced:
+        stream = io.BytesIO(b"".join(p for p, _ in produced) + TRAILER)
+        try:
+            got = [canon(Serializable.loadb(stream)) for _ in produced]
+            rest = stream.read()
+        except Exception as e:
+            got, rest = e, None
+        if rest != TRAILER or got != [w for _, w in produced]:
+            return ("self-delimiting", "encodings produced in one history, concatenated, do not decode one after another",
+                    {"family": "history", "ops": list(log[-len(indices):]), "names": [ops[j][0] for j in log[-len(indices):]]},
+                    "history %s: concatenation of the %d encodings gives %.120r, rest %r" % (
+                        " ; ".join(ops[j][0] for j in indices), len(produced), got, rest))
+    return None
+
+
+HIST_BACK = 3
+_HIST_LOG = []
+
+
+def _hist_what(oracle):
+    return {"encode-raises": "a valid message is refused", "decode-raises": "the result cannot be decoded", "round-trip": "the result decodes to a different value",
+            "self-delimiting": "the result is not consumed exactly", "out-of-domain": "out-of-domain value silently mis-encoded"}.get(oracle, oracle)
+
+
+def hist_op_count():
+    """number of operations of the alphabet WITHOUT running library code in this process (the table is built in the workers)"""
+    good, bad = hist_values()
+    return (len(good) - 1) * len(ENCODERS) + 1 + (len(bad) - 1) * 3 + 1 + 3 + 5
+
+
+def hist_work(arg):
+    """all histories of HIST_DEPTH operations that start with operation ``first``, in this (fresh) worker process"""
+    first, depth = arg
+    ops, _ = _hist()
+    if len(ops) != hist_op_count():
+        raise RuntimeError("HARNESS-ERROR: C13 history alphabet has %d operations, hist_op_count() says %d" % (len(ops), hist_op_count()))
+    counts = core.Counter()
+    viols = {}
+    log = _HIST_LOG     # per PROCESS: a pool worker runs several items, and what it ran for the previous one still counts
+    n = 0
+    for rest in itertools.product(range(len(ops)), repeat=depth - 1):
+        n += 1
+        bad = hist_run((first,) + rest, log, counts)
+        if bad:
+            viols.setdefault((bad[0], bad[1]), [0, bad[2], bad[3]])[0] += 1
+    return n, dict(counts), viols
 
 
 def describe(v, label):
@@ -381,6 +660,10 @@ def work(arg):
         cls, bad = check_value(v, label)
         counts.inc(cls)
         counts.inc("shape:" + label)
+        if not bad and isinstance(v, Serializable):
+            # the same value through the public entry points dumpb/loadb/dumpz/loadz
+            bad = check_api(v, label)
+            counts.inc("api:" + ("ok" if not bad else bad[0]))
         if bad:
             viols.setdefault((bad[0], bad[1]), [0, {"index": i, "label": label, "repr": repr(v)[:200]}, bad[2]])[0] += 1
         else:
@@ -418,6 +701,19 @@ def run(tier, seed):
     total += n_reuse
     for bad in bad_reuse:
         acc[(bad[0], bad[1])] = [1, {"family": "reuse"}, bad[2][:300]]
+    # histories of public-API calls in one process (fresh worker processes; first operation = work item)
+    depth = HIST_DEPTH[tier]
+    n_ops = hist_op_count()
+    n_hist = 0
+    for t, counts, viols in core.pmap("checks.c13", "hist_work", [((k + seed) % n_ops, depth) for k in range(n_ops)]):
+        n_hist += t
+        for k, v in counts.items():
+            classes.inc(k, v)
+        for key, (cnt, wit, msg) in viols.items():
+            if key not in acc:
+                acc[key] = [0, wit, msg[:600]]
+            acc[key][0] += cnt
+    total += n_hist
     # out of domain
     ood = 0
     for v, label in out_of_domain():
@@ -444,7 +740,12 @@ def run(tier, seed):
         "rule": "value grammar: %d scalars (all int width boundaries +-, float specials, utf-8/NUL/127-129 byte strings, enum members), containers list/tuple/set/dict/class of width<=2 over them, "
                 "depth 3 over a representative depth-2 set (thorough: depth 4, width 3); each value: round trip + encoded twice + trailer; "
                 "values exactly at the size limits (1-4 byte characters at 2**20 encoded bytes, 2**14 elements) must round trip; %d out-of-domain values must be refused. non-trivial = distinct canonical values that passed all three checks" % (len(SCALARS), ood),
-        "classes": {k: v for k, v in classes.items() if not k.startswith("shape:")},
+        "histories": {"operations": n_ops, "depth": depth, "histories": n_hist,
+                      "rule": "every sequence of %d operations from {valid encode of 3 messages via dumpb/dumpz/serialize_value/inside a list; encode of 6 "
+                              "out-of-domain messages refused part-way at nesting depth 1-3 via dumpb/dumpz/serialize_value; loadb/loadz of valid bytes; "
+                              "loadb/loadz of damaged bytes}, each operation judged by the property itself, produced encodings concatenated at the end" % depth,
+                      "operations_run": {k[11:]: v for k, v in classes.items() if k.startswith("history-op:")}},
+        "classes": {k: v for k, v in classes.items() if not k.startswith("shape:") and not k.startswith("history-op:")},
         "shapes": {k[6:]: v for k, v in classes.items() if k.startswith("shape:")},
         "exhaustive": True,
         "samples": core.safe_samples(lambda: [repr(v)[:120] for v, _ in itertools.islice(gen_values(tier), 1000, 1800, 160)]),
@@ -460,6 +761,9 @@ def replay(witness):
             if label == witness["label"]:
                 cls, bad = check_value(v, label)
                 return [core.Violation(bad[0], bad[1], witness, bad[2][:300])] if bad else []
+    if witness.get("family") == "history":
+        bad = hist_run(witness["ops"], [])
+        return [core.Violation(bad[0], bad[1], witness, bad[3][:600])] if bad else []
     if witness.get("family") == "reuse":
         n, bads = check_reuse()
         return [core.Violation(b[0], b[1], witness, b[2][:300]) for b in bads]
